@@ -143,6 +143,8 @@ def _try_call(c):
         kw = {"string_output": c["string"], "output_format": c["ofmt"], "acceptance_threshold": c["thrnum"] / c["thrden"]}
         if c["file"]:
             kw["output_file"] = os.path.join(d, "out.txt")
+        if c.get("uml"):
+            kw["to_uml_path"] = os.path.join(d, "out.png")
         valid = {"string_output": True, "acceptance_threshold": 0.5}
         before = {"fresh": [], "after_valid": [valid], "repeat": [kw], "valid_then_repeat": [valid, kw]}[c.get("history", "fresh")]
         for b in before:
@@ -225,6 +227,12 @@ def check_c20(out, tier):
                     for history in ("fresh", "after_valid", "repeat", "valid_then_repeat"):
                         calls.append({"id": "c%d" % i, "thrnum": thr, "thrden": 100, "ofmt": ofmt, "string": string, "file": file, "uml": False,
                                       "history": history, "source": "ok"})
+                        i += 1
+                    # a UML image as a sink (needs a rendering server: only the calls whose other arguments are invalid are run -
+                    # they must be rejected before anything is rendered)
+                    if thr in (-1, 101) or ofmt == "bogus":
+                        calls.append({"id": "c%d" % i, "thrnum": thr, "thrden": 100, "ofmt": ofmt, "string": string, "file": file, "uml": True,
+                                      "history": "fresh", "source": "ok"})
                         i += 1
                     # an unreadable source: invalid call arguments must be reported as such, not masked by the I/O failure
                     if thr in (-1, 101) or ofmt == "bogus" or not (string or file):
